@@ -14,7 +14,7 @@ from ..coqrun import cstr, cZ, cnat, cbool, clist, cpair, copt
 from ..tok import S
 
 PID = "C15"
-COQ_HEADER = ("From stdpp Require Import gmap strings.\nFrom SK Require Import lib.Tok model.C15_Model model.C15_Ext model.C15_View model.C15_Repr.\n"
+COQ_HEADER = ("From stdpp Require Import gmap strings.\nFrom SK Require Import lib.Tok model.C15_Model model.C15_Ext model.C15_View model.C15_ViewObs model.C15_Repr.\n"
               "Local Open Scope string_scope.\n")
 SHARD = 150
 RULE = ("operation histories over k networks. Old language (add generated/explicit id, remove reaction, remove species +/- prune, "
